@@ -213,7 +213,11 @@ func scenarioC15(rc *RunCtx) {
 	mon := getRaceMon()
 	mon.collect()
 	spec := genC15Spec(t, 0)
-	nG := t.Int("c15.ng", 2, 4)
+	maxG := 4
+	if curTier == "thorough" && t.Chance("c15.deep", 25) {
+		maxG = 7
+	}
+	nG := t.Int("c15.ng", 2, maxG)
 	var uses []c15Use
 	for i := 0; i < nG; i++ {
 		uses = append(uses, c15Use{Kind: t.Weighted("c15.use", 4, 3, 2, 2, 2), Seed: t.Int("c15.seed", 0, 1<<20)})
